@@ -14,7 +14,7 @@ pub const DEF: PropDef = PropDef {
     id: "C14",
     run,
     oracle,
-    rule: "cases = a valid packet of any version produced by the conformant generators (V5/V7 with 0..6 records, V9 with count = flowsets, IPFIX; templates pre-loaded by 0..2 earlier calls; 16..~1500 bytes, thorough: several KiB), placed last in a buffer after 0..2 other valid packets. For each case the oracle enumerates EVERY cut point strictly inside the packet (for V9 all except flowset boundaries and the end of the header, as the statement says) - the per-case enumeration is exhaustive, the number of cuts executed is reported as cuts_executed. Per cut: the result must be the elements of the preceding packets exactly as when parsed without the truncated tail (Debug equality against a twin parser with the same caches) followed by exactly one Error whose remaining bytes are the truncated packet; caches must equal the twin's (V5/V7/IPFIX), or the twin's plus the complete template records of the complete flowsets in front of the cut (V9; independent reference decode). non-trivial = the packet has >= 2 records (V5/V7) / >= 2 sets (V9/IPFIX) so that cuts fall behind a complete record/set; distinct by digest.",
+    rule: "cases = a valid packet of any version produced by the conformant generators (V5/V7 with 0..6 records, V9 with count = flowsets, IPFIX; templates pre-loaded by 0..2 earlier calls; 16..~1500 bytes, thorough: several KiB), placed last in a buffer after 0..2 other valid packets. For each case the oracle enumerates EVERY cut point strictly inside the packet (for V9 all except flowset boundaries and the end of the header, as the statement says) - the per-case enumeration is exhaustive, the number of cuts executed is reported as cuts_executed. Per cut: the result must be the elements of the preceding packets exactly as when parsed without the truncated tail (Debug equality against a twin parser that was fed the same earlier calls) followed by exactly one Error whose remaining bytes are the truncated packet; caches must equal the twin's (V5/V7/IPFIX), or the twin's plus the complete template records of the complete flowsets in front of the cut (V9; independent reference decode). non-trivial = the packet has >= 2 records (V5/V7) / >= 2 sets (V9/IPFIX) so that cuts fall behind a complete record/set; distinct by digest.",
     assumptions: &["V9 cut points on flowset boundaries are excluded by the statement itself (they yield a shorter valid packet)"],
 };
 
@@ -36,16 +36,20 @@ pub fn oracle(case: &Case) -> Outcome {
         return o;
     }
     let allowed = case.allowed_of(0);
-    // state after the earlier calls
-    let mut base = obs::new_parser(&allowed);
-    for c in pre {
-        base.parse_bytes(&c.buf());
-    }
+    // a parser in the state after the earlier calls: always built by replaying them (copying
+    // the public cache maps would miss any private state a correct implementation may keep)
+    let pre_bufs: Vec<Vec<u8>> = pre.iter().map(|c| c.buf()).collect();
+    let replayed = || {
+        let mut p = obs::new_parser(&allowed);
+        for b in &pre_bufs {
+            p.parse_bytes(b);
+        }
+        p
+    };
     let prefix: Vec<u8> = prefix_atoms.concat();
     // sanity: the complete buffer parses without error (generator self-check)
     {
-        let mut t = obs::new_parser(&allowed);
-        obs::clone_caches(&base, &mut t);
+        let mut t = replayed();
         let mut full = prefix.clone();
         full.extend_from_slice(target);
         let r = t.parse_bytes(&full);
@@ -54,8 +58,7 @@ pub fn oracle(case: &Case) -> Outcome {
         }
     }
     // twin: prefix only
-    let mut twin = obs::new_parser(&allowed);
-    obs::clone_caches(&base, &mut twin);
+    let mut twin = replayed();
     let want: Vec<String> = twin.parse_bytes(&prefix).iter().map(|e| format!("{:?}", e)).collect();
     let twin_model = model_from_lib(&twin);
     let version = be16(target, 0);
@@ -75,8 +78,7 @@ pub fn oracle(case: &Case) -> Outcome {
             continue;
         }
         n_cuts += 1;
-        let mut p = obs::new_parser(&allowed);
-        obs::clone_caches(&base, &mut p);
+        let mut p = replayed();
         let mut buf = prefix.clone();
         buf.extend_from_slice(&target[..cut]);
         let res = p.parse_bytes(&buf);
